@@ -466,6 +466,9 @@ def explore_result_fate(fn, origin_blk, start_blk, dest_key, dest_ty_ix, io_vari
                         report('R9.5', '%s() on the device-capable result of %s' % (meth, origin_desc), path, t['span'])
                         return
                     if meth in SWALLOW:
+                        from rules.panics import feeds_only_debug_assert
+                        if not t['dest']['p'] and feeds_only_debug_assert(fn, {t['dest']['l']}):
+                            return  # the whole expression is the condition of a `debug_assert!`: not there in a release build
                         report('R9.3', 'result of %s is consumed by %s(), which discards the error value' %
                                (origin_desc, meth), path, t['span'])
                         return
